@@ -343,6 +343,7 @@ pub struct ConcStats {
     ok_answers: u64,
     answers_not_latest: u64,
     writer_failed: u64,
+    signals_checked: u64,
 }
 
 struct ConcScenario {
@@ -384,18 +385,15 @@ async fn conc_schedule<TC: Tcfg>(case: &ConcCase, sc: &ConcScenario, policy: &Po
             }
         }
     }
-    let poll_handle = match (&first_ro, case.poller) {
-        (Some(ro), true) => {
-            let p = ro.clone();
-            Some(tokio::spawn(async move { p.poll_for_azks_changes(tokio::time::Duration::from_millis(3), None).await }))
-        }
-        _ => None,
-    };
+    let poll_ro = if case.poller { first_ro.clone() } else { None };
     vdb.ctl.sched.store(true, Ordering::SeqCst);
     enum Out {
         Writer(Vec<Result<akd::EpochHash, String>>),
         Reader(Vec<(ROp, Obs)>),
+        Daemon,
     }
+    // requests issued right after the n-th change signal, with their answers
+    let signal_log: std::cell::RefCell<Vec<(u64, ROp, Obs)>> = Default::default();
     let mut actors: Vec<Actor<'_, Out>> = vec![];
     {
         let d = wdir.clone();
@@ -425,11 +423,32 @@ async fn conc_schedule<TC: Tcfg>(case: &ConcCase, sc: &ConcScenario, policy: &Po
             Out::Reader(outs)
         }));
     }
-    let (outs, trace) = run_actors(actors, policy, 40_000).await;
-    vdb.ctl.sched.store(false, Ordering::SeqCst);
-    if let Some(h) = poll_handle {
-        h.abort();
+    // the change poller of the first cached read-only instance and a listener that issues requests on that
+    // instance as soon as a signal arrives: background actors under the scheduler's control
+    let mut daemons = 0;
+    if let Some(ro) = &poll_ro {
+        let (tx, mut rx) = tokio::sync::mpsc::channel::<()>(4);
+        let p = ro.clone();
+        actors.push(Box::pin(async move {
+            let _ = p.poll_for_azks_changes(tokio::time::Duration::from_millis(2), Some(tx)).await;
+            Out::Daemon
+        }));
+        let (w, log) = (&sc.world, &signal_log);
+        actors.push(Box::pin(async move {
+            let mut n = 0u64;
+            while let Some(()) = rx.recv().await {
+                n += 1;
+                for op in [ROp::EpochHash, ROp::Lookup((n as u16).wrapping_mul(13107))] {
+                    let ob = do_op(ro, None, w, &op).await;
+                    log.borrow_mut().push((n, op, ob));
+                }
+            }
+            Out::Daemon
+        }));
+        daemons = 2;
     }
+    let (outs, trace) = run_actors_d(actors, policy, 40_000, daemons, 10).await;
+    vdb.ctl.sched.store(false, Ordering::SeqCst);
     st.schedules += 1;
     if trace.preemptions > 0 {
         st.preempted += 1;
@@ -462,8 +481,19 @@ async fn conc_schedule<TC: Tcfg>(case: &ConcCase, sc: &ConcScenario, policy: &Po
     }
     let wreal = World { m: m_real, pk: sc.world.pk.clone(), labels: sc.world.labels.clone() };
     let w = &wreal;
-    for (ai, o) in outs.into_iter().enumerate().skip(1) {
+    // every change signal denotes a strictly newer epoch than the instance held before: after the n-th signal the
+    // instance must answer from epoch >= (epoch at its creation) + n
+    for (n, op, ob) in signal_log.borrow().iter() {
+        st.signals_checked += 1;
+        st.answers += 1;
+        if judge::<TC>(w, ob, sc.e0 + n, &format!("{what0}: {op:?} on the polled instance right after change signal #{n} (instance created at epoch {})", sc.e0)).await?.is_some() {
+            st.ok_answers += 1;
+        }
+    }
+    let n_fg = 1 + case.readers.len();
+    for (ai, o) in outs.into_iter().enumerate().skip(1).take(n_fg - 1) {
         match o {
+            Some(Out::Daemon) => {}
             Some(Out::Writer(_)) => {}
             Some(Out::Reader(obs)) => {
                 let inst = case.readers[ai - 1].0;
@@ -519,6 +549,22 @@ async fn conc_case<TC: Tcfg>(case: &ConcCase, st: &mut ConcStats) -> R {
     for s in &case.schedules {
         conc_schedule::<TC>(case, &sc, &Policy::Bytes(s.clone()), st).await?;
     }
+    // change-signal scripts: a reader of the polled instance is parked inside a request (s1 steps in), the writer
+    // completes its publishes, the poller runs p steps, the listener l steps; then everybody finishes
+    if let (true, Some(ri)) = (case.poller, case.readers.iter().position(|(i, _)| *i == RInst::RoCached)) {
+        let (wa, ra, pa, la) = (0u8, ri as u8 + 1, case.readers.len() as u8 + 1, case.readers.len() as u8 + 2);
+        for s1 in [0usize, 1, 2, 3, 5, 8] {
+            for wn in [t as usize + 10, t as usize / 3] {
+                for pn in [2usize, 3, 5, 8] {
+                    let mut script = vec![ra; s1];
+                    script.extend(std::iter::repeat(wa).take(wn));
+                    script.extend(std::iter::repeat(pa).take(pn));
+                    script.extend([la, la, la, pa, pa, la, la]);
+                    conc_schedule::<TC>(case, &sc, &Policy::Script(script), st).await?;
+                }
+            }
+        }
+    }
     if case.enumerate > 0 {
         let others = case.readers.len() as u8;
         let stride1 = ((t as u64 * others as u64) / (case.enumerate as u64 / 2).max(1)).max(1);
@@ -561,6 +607,7 @@ pub fn conc_check(case: &ConcCase, ctx: &mut Ctx) -> R {
     ctx.count("non_error_answers", st.ok_answers);
     ctx.count("answers_naming_an_older_epoch", st.answers_not_latest);
     ctx.count("writer_publishes_that_failed(not judged here)", st.writer_failed);
+    ctx.count("requests_right_after_a_change_signal", st.signals_checked);
     if ctx.counting {
         ctx.evals += st.schedules.saturating_sub(1);
     }
@@ -617,7 +664,7 @@ pub fn run(eng: &mut Engine) {
     );
     eng.prop_part(
         "concurrent",
-        "one writer actor (1-5 publishes) interleaved with 1-3 reader actors on a clone of the writer, cached/uncached read-only instances and a second cached directory (optionally the change poller in the background, explicit flushes), under the non-preemptive schedule, strided single and double preemptions and generated random schedules; answers judged as above, then every instance is queried again after the concurrent phase; evaluations = schedules executed; non-trivial = schedule with at least one preemption, distinct by (scenario, actor-per-step trace)",
+        "one writer actor (1-5 publishes) interleaved with 1-3 reader actors on a clone of the writer, cached/uncached read-only instances and a second cached directory (optionally the change poller of the first cached read-only instance and a listener issuing requests right after each change signal as background actors - after the n-th signal answers must come from an epoch >= creation epoch + n; explicit flushes), under the non-preemptive schedule, scripted 'request parked - writer publishes - poller - listener' schedules, strided single and double preemptions and generated random schedules; answers judged as above, then every instance is queried again after the concurrent phase; evaluations = schedules executed; non-trivial = schedule with at least one preemption, distinct by (scenario, actor-per-step trace)",
         eng.tier.pick(64, 600),
         move || conc_strategy(thorough),
         conc_check,
